@@ -89,15 +89,16 @@ impl StyledStr {
             }
             last = current + content.len();
 
-            for (i, line) in content.split_inclusive('\n').enumerate() {
-                if 0 < i {
-                    // reset char count on newline, skipping the start as we might have carried
-                    // over from a prior block of styled text
-                    wrapper.reset();
-                }
+            for line in content.split_inclusive('\n') {
+                let ends_line = line.ends_with('\n');
                 let line = crate::output::textwrap::word_separators::find_words_ascii_space(line)
                     .collect::<Vec<_>>();
                 new.extend(wrapper.wrap(line));
+                if ends_line {
+                    // reset char count and indent on newline, otherwise we carry over into the
+                    // next block of styled text
+                    wrapper.reset();
+                }
             }
         }
         if last != self.0.len() {
